@@ -279,7 +279,9 @@ impl Multi {
                     self.model.purge(db, now);
                     for k in &args[1..] {
                         let snap = self.model.dbs[db].map.get(k).cloned();
-                        let unreliable = self.poisoned;
+                        // a key watched at the very instant of its deadline (EXPIRE k 0 included) may or may not exist
+                        // for the server: no verdict on that watch
+                        let unreliable = self.poisoned || snap.as_ref().map_or(false, |e| e.deadline == Some(now));
                         self.cl.get_mut(&c).unwrap().watch.push(WatchEnt { db, key: k.clone(), snap, touched: false, at: now, unreliable });
                     }
                 }
@@ -379,15 +381,17 @@ impl Multi {
         let watch = std::mem::take(&mut self.cl.get_mut(&c).unwrap().watch);
         let mut changed: Vec<String> = Vec::new();
         let mut touched: Vec<String> = Vec::new();
+        let mut tie_at_exec = false;
         for w in &watch {
             let cur = self.model.dbs[w.db].map.get(&w.key).cloned();
+            if cur.as_ref().map_or(false, |e| e.deadline == Some(now)) { tie_at_exec = true; }
             let same = match (&cur, &w.snap) { (None, None) => true, (Some(a), Some(b)) => a.val == b.val && a.deadline == b.deadline, _ => false };
             if !same { changed.push(resp::escape(&w.key)); }
             if w.touched { touched.push(resp::escape(&w.key)); }
         }
         let aborted = matches!(reply, R::NilArr | R::Nil);
         if !watch.is_empty() { self.h.count("exec_with_watch", 1); }
-        if self.poisoned || watch.iter().any(|w| w.unreliable) {
+        if self.poisoned || tie_at_exec || watch.iter().any(|w| w.unreliable) {
             // the model lost track of the dataset somewhere in this window: no verdict on the watch outcome
             if aborted { return; }
             changed.clear();
